@@ -147,16 +147,24 @@ def check_program(prog, K, max_paths):
     except Exception as e:  # noqa
         st.refuted += 1
         return st, {"prog": prog, "K": K, "kind": "generate", "problem": "Fortran generation raised %s: %s" % (type(e).__name__, str(e)[:150])}, 0
+    def unsupported(e, where):
+        # a module gfortran itself rejects is not a limit of fsym but a violation of "the module compiles" (reported by
+        # the compiler side check with the compiler's message); only a module that compiles and that fsym cannot
+        # handle is a harness error
+        g = fdriver.run_gfortran(txt, None, syntax_only=True)
+        if g["compile_rc"] != 0:
+            return st, None, 0
+        raise common.HarnessError("fsym %s %s: %s" % (where, prog.get("name"), e))
     try:
         fsym.Module(txt)
     except fsym.Unsupported as e:
-        raise common.HarnessError("fsym cannot read the module emitted for %s: %s" % (prog.get("name"), e))
+        return unsupported(e, "cannot read the module emitted for")
     st.discharged += 1
     ex = Explorer(timeout_ms=3000, max_paths=max_paths, max_decisions=300, wall_s=40)
     try:
         res = ex.explore(harness(prog, dag, txt, K))
     except fsym.Unsupported as e:
-        raise common.HarnessError("fsym: unsupported construct while executing %s: %s" % (prog.get("name"), e))
+        return unsupported(e, "unsupported construct while executing")
     st.add(ex.stats)
     for trail, r in res:
         if r is not None:
@@ -402,7 +410,7 @@ def _without_zero_flattening(prog):
 
 def classify(c, r, open_known):
     for k in open_known:
-        if k.get("matcher") == "zero_product_loses_shape" and c.get("kind") in ("semantic", "generate"):
+        if k.get("matcher") == "zero_product_loses_shape" and c.get("kind") in ("semantic", "generate", "compile"):
             # (also when the scalar 0 reaches a user-function argument and kind inference rejects the program)
             prog2, nhits = _without_zero_flattening(c["prog"])
             if nhits:
